@@ -2,3 +2,4 @@ pub mod core;
 pub mod corpus;
 pub mod kx;
 pub mod props;
+pub mod textgen;
